@@ -163,3 +163,28 @@ Proof. eexists. split; [vm_compute; reflexivity|]. split; [vm_compute; reflexivi
 Example claim_fee_above_amount_refused :
   claim ex_asset (repeat x06 32) [x00; x14] ex_proof (Some ex_view) (fun _ => 2000) = PgErr.
 Proof. vm_compute. reflexivity. Qed.
+
+(* once the proof and the transaction are accepted, the claim is produced exactly when the amount is a
+   non-negative int64 and the fee does not exceed it *)
+Theorem claim_succeeds_iff asset genesis cs proof bv fee_of input amount :
+  create_pegin_input asset genesis cs proof bv = PgOk (input, amount) ->
+  (exists t, claim asset genesis cs proof bv fee_of = PgOk t) <->
+  (amount < 0x8000000000000000 /\ claim_fee input asset cs amount fee_of <= amount).
+Proof.
+  intro P. unfold claim. rewrite P.
+  destruct (N.leb_spec 0x8000000000000000 amount) as [Hn|Hn];
+    destruct (N.ltb_spec amount (claim_fee input asset cs amount fee_of)) as [Hf|Hf]; cbn [orb]; split.
+  all: try (intros [t E]; discriminate E).
+  all: try (intros [Ha Hb]; exfalso; lia).
+  - intros _. split; [exact Hn|exact Hf].
+  - intros _. eexists. reflexivity.
+Qed.
+
+Theorem claim_refuses_excess_fee asset genesis cs proof bv fee_of input amount :
+  create_pegin_input asset genesis cs proof bv = PgOk (input, amount) ->
+  amount < claim_fee input asset cs amount fee_of ->
+  claim asset genesis cs proof bv fee_of = PgErr.
+Proof.
+  intros P Hf. unfold claim. rewrite P.
+  destruct (N.ltb_spec amount (claim_fee input asset cs amount fee_of)); [|lia]. rewrite orb_true_r. reflexivity.
+Qed.
